@@ -3,6 +3,8 @@ package exif2
 import (
 	"sync"
 
+	"github.com/evanoberholster/imagemeta/verifhook"
+
 	"github.com/rs/zerolog"
 )
 
@@ -59,6 +61,7 @@ func (b *buffer) validTag() bool {
 // readTagValue discards until tag.ValueOffset and reads length of tag
 func (ir *ifdReader) readTagValue() (buf []byte, err error) {
 	t := ir.buffer.currentTag()
+	verifhook.T("exif", "val", int64(t.ID), int64(t.ValueOffset), int64(t.Size()), int64(ir.po))
 	if err := ir.discard(int(t.ValueOffset) - int(ir.po)); err != nil {
 		return nil, err
 	}
@@ -89,6 +92,7 @@ func (ir *ifdReader) addTagBuffer(t Tag) {
 		if ir.logLevelWarn() {
 			t.logTag(ir.logWarn()).Uint32("readerOffset", ir.po).Msg("Incompatible reverse exif tag")
 		}
+		verifhook.T("exif", "drop", int64(t.ID), int64(t.ValueOffset), 1, int64(ir.po))
 		return
 	}
 	b := ir.buffer
@@ -100,21 +104,25 @@ func (ir *ifdReader) addTagBuffer(t Tag) {
 				}
 				b.tag[i] = t
 				b.len++
+				verifhook.T("exif", "ins", int64(t.ID), int64(t.ValueOffset), int64(i), int64(b.len))
 				return
 			}
 		}
 		if b.len == 0 {
 			b.tag[0] = t
 			b.len++
+			verifhook.T("exif", "ins", int64(t.ID), int64(t.ValueOffset), 0, int64(b.len))
 			return
 		}
 		if t.ValueOffset < b.tag[0].ValueOffset {
 			copy(b.tag[0+1:b.len+1], b.tag[0:b.len])
 			b.tag[0] = t
 			b.len++
+			verifhook.T("exif", "ins", int64(t.ID), int64(t.ValueOffset), 0, int64(b.len))
 			return
 		}
 	}
+	verifhook.T("exif", "drop", int64(t.ID), int64(t.ValueOffset), 2, int64(b.len))
 	if ir.logLevelWarn() {
 		ir.logWarn().Int32("tagMaxCount", tagMaxCount).Msg("error tagMaxCount is too short")
 	}
